@@ -238,33 +238,47 @@ class Consent:
                     out.add(cv)
         return out
 
-    def _codes_through_calls(self, fn, call):
-        """the code argument is a local whose definitions are constants or results of functions returning constants"""
-        a = call.get("a", [])
-        e = T.strip(a[1]) if len(a) >= 2 else None
-        if not (isinstance(e, dict) and e.get("k") == "v" and e.get("s") in ("l", "sl")):
-            return set(), False
+    def _var_consts(self, fn, name, depth=0):
+        """constants a local may hold: its definitions are constants, other such locals (an absorbed helper's result
+        variable), or results of functions returning constants; None when some definition is something else"""
         out = set()
         for n in fn.events("S"):
             l = T.strip(n.ev["lhs"])
-            if not (isinstance(l, dict) and l.get("k") == "v" and l["n"] == e["n"]):
+            if not (isinstance(l, dict) and l.get("k") == "v" and l["n"] == name):
                 continue
             if n.ev.get("o") != "=":
-                return set(), False
+                return None
             r = T.strip(n.ev.get("rhs")) if isinstance(n.ev.get("rhs"), dict) else None
             c = T.const(r) if r is not None else None
-            if c is not None:
-                out.add((c, ""))
+            if c is not None and r.get("k") != "v":
+                out.add(c)
+                continue
+            if isinstance(r, dict) and r.get("k") == "v" and r.get("s") in ("l", "sl") and r["n"] != name and depth < 3:
+                sub = self._var_consts(fn, r["n"], depth + 1)
+                if sub is None:
+                    return None
+                out |= sub
                 continue
             if isinstance(r, dict) and r.get("k") == "c" and r.get("fn"):
                 gs = self.ef.lookup(r["fn"], fn)
                 cs = [self._ret_consts(g) for g in gs]
                 if gs and all(x is not None for x in cs):
                     for x in cs:
-                        out |= {(v, "") for v in x}
+                        out |= x
                     continue
+            return None
+        return out
+
+    def _codes_through_calls(self, fn, call):
+        """the code argument is a local whose definitions are constants or results of functions returning constants"""
+        a = call.get("a", [])
+        e = T.strip(a[1]) if len(a) >= 2 else None
+        if not (isinstance(e, dict) and e.get("k") == "v" and e.get("s") in ("l", "sl")):
             return set(), False
-        return out, bool(out)
+        vs = self._var_consts(fn, e["n"])
+        if not vs:
+            return set(), False
+        return {(v, "") for v in vs}, True
 
     def _calls_on(self, lf2):
         """[(fn, call node, callee name, by address?)] : calls that are handed the field (or its address) first"""
